@@ -9,7 +9,6 @@
 //
 // usage: nf_fault <files.ndjson> <out.ndjson> <tmpdir> <log> [batch]
 #include "nf_common.hpp"
-#include "Db/DbStringFormat.hpp"
 #include "Basic/CSVformat.hpp"
 #include "OutputFormat/GridZycor.hpp"
 #include "OutputFormat/GridIfpEn.hpp"
